@@ -30,6 +30,7 @@ pub static SPEC: Spec = Spec {
         "big_core_observations",
         "replica_completed_a_full_page",
         "live_instance_invariant_checks",
+        "overwrite_over_two_page_core",
     ],
     rule: "a case = one history scaled so that block indices cross 8192 / 32768 / 65536 (98304 in thorough): batch appends of 8000-40000 one-byte blocks, clears straddling page edges, reopen after steps, replicas fetching blocks pages apart and out of order, sampled crash recovery (64 journal prefixes per big history); after EVERY step has(i) is probed for EVERY i < length+2 plus 6 offsets in each of the next 4 pages plus 2^32, 2^40-1, u64::MAX and compared with the model (true exactly for stored blocks), and info().contiguous_length must equal the smallest missing index; small histories: the bounded-exhaustive L=4 set and seeded-random histories with the same oracle; distinct = history hash; evaluations = histories + crash points",
     assumptions: &["get() is sampled on big cores (64 indices incl. page edges); has() is exhaustive below length+2"],
@@ -37,7 +38,7 @@ pub static SPEC: Spec = Spec {
     hang_secs: 480,
 };
 
-const DIRECTED: u64 = 11;
+const DIRECTED: u64 = 12;
 
 fn big(n: u32, base: u32) -> Op {
     Op::Batch((0..n).map(|i| (base + i, 1)).collect())
@@ -323,6 +324,47 @@ fn live_after_fault(ctx: &mut Ctx, r: &mut Rng) -> Result<(), Fail> {
     Ok(())
 }
 
+/// A core created with the overwrite flag on stores that held a longer core (two bitfield pages)
+/// starts with no block held anywhere, and stays exact afterwards and across a reopen.
+fn overwrite_over_big_core(ctx: &mut Ctx, r: &mut Rng) -> Result<(), Fail> {
+    use crate::backends::Backend;
+    use crate::ops::{fail, key_from_seed, keypair};
+    let b = Backend::new_world();
+    let old_key = key_from_seed(r.next_u64());
+    let old_len: u32 = 33_000 + r.below(8_000) as u32;
+    {
+        let mut old = crate::props::c14::open_core_ow(&b, Some(keypair(&old_key, true)), false, CacheMode::None, false).map_err(|e| fail("scenario:old-core", e))?;
+        let blocks: Vec<Vec<u8>> = (0..old_len).map(|i| vec![(i % 251) as u8]).collect();
+        let refs: Vec<&[u8]> = blocks.iter().map(|x| &x[..]).collect();
+        crate::exec::call(old.append_batch(&refs[..])).map_err(|p| fail("scenario:old-core", p))?.map_err(|e| fail("scenario:old-core", e.to_string()))?;
+        crate::exec::call(old.clear(5, 9)).map_err(|p| fail("scenario:old-core", p))?.map_err(|e| fail("scenario:old-core", e.to_string()))?;
+    }
+    let key = key_from_seed(r.next_u64());
+    let mut core = crate::props::c14::open_core_ow(&b, Some(keypair(&key, true)), false, CacheMode::None, true).map_err(|e| fail("overwrite:build", e))?;
+    let mut model = Model::new(true);
+    let check = |core: &mut hypercore::Hypercore, model: &Model, when: &str| -> Result<(), Fail> {
+        let probes: Vec<u64> = (0..70u64).chain([4, 5, 8, 9, 8191, 8192, 32_767, 32_768, 32_999, old_len as u64 - 1, old_len as u64, 65_535]).collect();
+        let o = observe_at(core, &probes, &[0, 1, 2, 5]);
+        let e = model.expected_like(&o);
+        match diff(&o, &e, CMP_ALL) {
+            Some((c, d)) => Err(fail(format!("overwrite:{when}:{c}"), d)),
+            None => Ok(()),
+        }
+    };
+    check(&mut core, &model, "fresh")?;
+    for k in 0..3u32 {
+        let blk = crate::rng::block_bytes(0x0800_0000 + k, 3 + k as usize);
+        crate::exec::call(core.append(&blk)).map_err(|p| fail("overwrite:append:panic", p))?.map_err(|e| fail("overwrite:append", e.to_string()))?;
+        model.append_batch(&[blk]);
+        check(&mut core, &model, "after-append")?;
+    }
+    drop(core);
+    let mut core = crate::props::c14::open_core_ow(&b, None, true, CacheMode::None, false).map_err(|e| fail("overwrite:reopen", e))?;
+    check(&mut core, &model, "after-reopen")?;
+    ctx.count("overwrite_over_two_page_core");
+    Ok(())
+}
+
 fn report(ctx: &mut Ctx, i: usize, f: Fail, ops: &[Op]) {
     // compact replay for big batches
     let desc: Vec<String> = ops
@@ -380,6 +422,17 @@ fn run_case(ctx: &mut Ctx, id: u64) {
                 ctx.eval(Some(0xFA));
                 if let Err(f) = replica_full_page(ctx, &mut r) {
                     ctx.violate(f.sig, f.detail, json!({"kind":"replica-full-page"}));
+                }
+            }
+            11 => {
+                ctx.eval(Some(0xFB));
+                if let Err(f) = overwrite_over_big_core(ctx, &mut r) {
+                    if f.sig.starts_with("scenario:") {
+                        ctx.count("scenario_unusable");
+                        ctx.notes.push(format!("overwrite scenario unusable: {}", f.detail.chars().take(120).collect::<String>()));
+                    } else {
+                        ctx.violate(f.sig, f.detail, json!({"kind":"overwrite-over-big-core"}));
+                    }
                 }
             }
             9 => {
